@@ -440,6 +440,69 @@ pub fn run(ctx: &Ctx) {
     });
     ctx.require_class("c11/comments-own-lines", 40);
     ctx.require_class("c11/comments-line-ends", 40);
+    offset_family(ctx);
+}
+
+/// "OFFSET of a label with that offset" through the real driver: a label that follows data whose source text holds
+/// runs of blanks, quotes and backslashes (inside string literals such characters are data, not separators); the
+/// program that writes `offset val` and the one that writes the number must print the same registers and memory, and
+/// both must print what the reference machine computes
+fn offset_family(ctx: &Ctx) {
+    use crate::asm::*;
+    use crate::progs::*;
+    let strings = ["a  b", "  x", "x  ", "a   b    c", " ", "    ", "say \"hi\"  now", "C:\\dir  \\n", "tab? no: two  blanks , comma", "0x10  0b1  -1"];
+    let jobs: Vec<(usize, bool, bool)> = (0..strings.len()).flat_map(|i| [(i, false, false), (i, true, false), (i, false, true), (i, true, true)]).collect();
+    use rayon::prelude::*;
+    let outs: Vec<(usize, bool, bool, Result<Vec<Ev>, String>, Vec<Ev>, String)> = jobs
+        .par_iter()
+        .map(|(i, word, numeric)| {
+            let st = strings[*i];
+            let data = vec![
+                DataDecl::Item { label: Some("s_1".into()), word: *word, kind: DataKind::Str(st.to_string()) },
+                DataDecl::Item { label: Some("val".into()), word: false, kind: DataKind::Val(7) },
+            ];
+            let off = (st.len() * if *word { 2 } else { 1 }) as u16;
+            let mut code: Vec<Item> = vec![Item::Label("start".into())];
+            code.push(Item::Ins(Insn::new("mov", vec![Opd::R16(R16::AX), Opd::Imm(off, ImmKind::SW)])));
+            code.push(Item::Ins(Insn::new("mov", vec![Opd::R8(R8::BL), Opd::Lab(W::B, "val".into())])));
+            code.push(Item::Print(PrintStmt::Reg));
+            code.push(Item::Print(PrintStmt::MemRange(0, off as u32 + 2)));
+            let prog = Program { data, code };
+            // spelling: choices byte 6 of render_unsigned's cases selects `offset label`; the numeric program uses plain decimal
+            let mut text = render_program(&prog, &Layout::plain()).text;
+            if !*numeric {
+                text = text.replacen(&format!("mov ax,{}", off), "mov ax, offset val", 1).replacen(&format!("mov ax, {}", off), "mov ax, offset val", 1);
+            }
+            let flat = flatten(&prog);
+            let image = data_image(&prog.data);
+            let lines: Vec<usize> = vec![0; flat.ops.len()];
+            let cfg = RunCfg { interpreted: false, script: &[], lines: &lines, max_steps: 100, input_lines: None, buf_fill: None };
+            let rr = ref_run(&flat, &image, &cfg, &crate::refmodel::Quirks::none());
+            let exp = crate::c17::blank_lines(&normalise(&rr.events));
+            let out = run_cli(text.as_bytes(), Stdin::Closed, false, 1 << 20, 20_000);
+            let obs = if !out.clean() { Err(format!("status {:?} {}", out.status, out.err_str().lines().next().unwrap_or(""))) } else { tokenize(&out.stdout).map(|t| crate::c17::blank_lines(&t)) };
+            (*i, *word, *numeric, obs, exp, text)
+        })
+        .collect();
+    for (i, word, numeric, obs, exp, text) in outs {
+        ctx.add_evals(1);
+        if !numeric && !text.contains("offset val") {
+            ctx.harness_error("offset family: the OFFSET spelling was not rendered");
+        }
+        let replay = json!({"kind":"cli","source":text,"stdin":"","interpreted":false,"blank_line_numbers":true,"expected_events": exp.iter().map(|e| format!("{:?}", e)).collect::<Vec<_>>()});
+        match obs {
+            Ok(o) if o == exp => {
+                ctx.add_nontrivial(1);
+                ctx.class("c11/offset-vs-number-through-the-cli", 1);
+            }
+            Ok(o) => ctx.fail(Failure {
+                key: format!("c11|cli|offset-family|{}", if numeric { "number" } else { "offset" }),
+                what: format!("label behind the {} string {:?}, constant written as {}: {}", if word { "DW" } else { "DB" }, strings[i], if numeric { "a number" } else { "OFFSET val" }, crate::c17::first_diff(&exp, &o)),
+                replay,
+            }),
+            Err(e) => ctx.fail(Failure { key: "c11|cli|offset-family|abnormal".into(), what: format!("string {:?}: {}", strings[i], e.chars().take(200).collect::<String>()), replay }),
+        }
+    }
 }
 
 pub fn replay(v: &Value) -> Result<String, String> {
